@@ -271,6 +271,8 @@ def compare_paths(exe, res, done, what, keys, extract):
         if exe.check(base + p.pc + q.pc)[0]:
             VAC[what] = VAC.get(what, 0) + 1
         ok, model = exe.check(base + p.pc + q.pc + [diff], want_model=True)
+        if not ok and len(XCHECK) < 6 and sp:
+            XCHECK.append((base + p.pc + q.pc + [diff], 'unsat'))
         n += 1
         res.query('sat' if ok else 'unsat')
         if ok:
@@ -285,6 +287,7 @@ def differs(a, b):
 
 
 PENDING = []
+XCHECK = []
 VAC = {}
 MISSING = []
 
@@ -414,6 +417,14 @@ def main(tier):
         res.coverage.setdefault('jointly_feasible_order_pairs', {})[w] = hit
         if hit == 0:
             res.inconc('vacuity: no pair of iteration orders of %s was jointly feasible' % w)
+    if tier == 'thorough':
+        from lib import smt
+        for k, (asserts, verdict) in enumerate(XCHECK):
+            try:
+                res.coverage.setdefault('cross_solver', {})['order-pair query %d' % k] = smt.cross_check(asserts, verdict, timeout=60)
+            except smt.SolverDisagreement as e:
+                res.inconc('cross-solver: %s' % e)
+    del XCHECK[:]
     need_native = bool(PENDING) or bool(unanalysed) or tier == 'thorough'
     if need_native:
         outs = native_runs(12)
